@@ -191,7 +191,10 @@ def handle (req : Json) : Except String Json := do
     let st : Store Float32 := raw.map (fun o => o.map (prep mt))
     let g := buildGraph mt st (← getNat req "m") (← getNat req "efc")
     let q := prep mt (← f32List (← req.getObjVal? "q"))
-    let res := search mt st g q (← getNat req "k") (← getNat req "ef")
+    -- `"legacy": true` = the search before `9cbe548` (bound read once per popped candidate)
+    let kk ← getNat req "k"
+    let ef ← getNat req "ef"
+    let res := if getBoolD req "legacy" false then legacySearch mt st g q kk ef else search mt st g q kk ef
     return Json.mkObj [("hits", Json.arr (res.map (fun s =>
       Json.mkObj [("id", s.id), ("score", f32Json s.score)])).toArray)]
   | "sim" =>
